@@ -6,6 +6,14 @@ from ..world import exec_event, geo_of, init_matrix, make_world, plate, ref_vols
 from . import common as cm
 
 
+def fr(x):
+    """exact value of a reported volume; a non-finite volume equals nothing"""
+    import math
+
+    x = float(x)
+    return Fraction(x) if math.isfinite(x) else ("not finite", repr(x))
+
+
 def WIDE():
     return [
         plate("P", 2, 3, 0, 1e6, [[1000, 1001, 1002], [1003, 1004, 1005]]),
@@ -69,6 +77,11 @@ def transfers(config):
                 ["remove", "T", "B02", {"$nps": ["uint16", 300]}, {}],
                 ["aspirate", wl, "Q", ["A01"], {"$nps": ["uint8", 200]}, {}],
                 ["dispense", wl, "T", ["A01", "B01"], {"$npa": ["int8", [100, 100]]}, {}],
+                # numpy.ma masked arrays as volumes
+                ["add", "P", ["A01", "B01", "A02"], {"$ma": [[1.5, 2.5, 3.5], [False, True, False]]}, {}],
+                ["remove", "Q", ["A01", "C02"], {"$ma": [[1.5, 2.5], [True, False]]}, {}],
+                ["aspirate", wl, "P", ["B03", "A01"], {"$ma": [[1.5, 2.5], [False, True]]}, {}],
+                ["dispense", wl, "T", ["A01", "B02"], {"$ma": [[1.5, 2.5], [True, True]]}, {}],
             ]
     # distribute: the source column is charged once per listed destination well (repeats and trough aliases included)
     for wl in ("e", "f"):
@@ -243,13 +256,21 @@ class Harness(cm.BaseA):
             if c not in addressed and float(post[lw][c]).hex() != float(pre[lw][c]).hex():
                 V.append(("C04/frame", f"{op} on {lw}: unaddressed well {well_id(*c)} changed {pre[lw][c]!r} -> {post[lw][c]!r}"))
         if out == "ok":
+            mask = flat_f(vols["$ma"][1]) if isinstance(vols, dict) and "$ma" in vols else None
+            if mask is not None:
+                # a masked volume entry either counts with its data value or not at all - but the same for every entry
+                alt = dict(led[lw])
+                for (c, v), m in zip(pairs, mask):
+                    alt[c] += 0 if m else sign * v
+                if all(fr(post[lw][c]) == x for c, x in alt.items()):
+                    pairs = [(c, 0 if m else v) for (c, v), m in zip(pairs, mask)]
             for c, v in pairs:
                 led[lw][c] += sign * v
-            bad = [(well_id(*c), float(x), float(post[lw][c])) for c, x in led[lw].items() if Fraction(float(post[lw][c])) != x]
+            bad = [(well_id(*c), float(x), float(post[lw][c])) for c, x in led[lw].items() if fr(post[lw][c]) != x]
             if bad:
                 V.append(("C04/ledger", f"{op} {lw}: (well, exact, reported) {bad[:4]}"))
                 for c in led[lw]:
-                    led[lw][c] = Fraction(float(post[lw][c]))
+                    led[lw][c] = fr(post[lw][c])
             if post[lw].tobytes() != pre[lw].tobytes():
                 res["nontrivial"] = self.canon(W, config)
         else:
@@ -263,7 +284,7 @@ class Harness(cm.BaseA):
                     break
                 cur[c] = nv
             ok_states.append(cur)
-            obs = {c: Fraction(float(post[lw][c])) for c in led[lw]}
+            obs = {c: fr(post[lw][c]) for c in led[lw]}
             if obs not in ok_states:
                 V.append(("C04/rejected-call-state", f"{op} {lw} raised {type(exc).__name__}; volumes {post[lw].tolist()} are neither the previous state nor the state after the accepted pairs"))
             led[lw] = obs
@@ -285,7 +306,7 @@ class Harness(cm.BaseA):
                 led[src][s_] -= v
                 led[dst][d_] += v
             for n in post:
-                bad = [(well_id(*c), float(x), float(post[n][c])) for c, x in led[n].items() if Fraction(float(post[n][c])) != x]
+                bad = [(well_id(*c), float(x), float(post[n][c])) for c, x in led[n].items() if fr(post[n][c]) != x]
                 if bad:
                     V.append(("C04/ledger", f"transfer {src}->{dst} via {wl}: {n} (well, exact, reported) {bad[:4]}"))
             res["nontrivial"] = self.canon(W, config) + b"t"
@@ -308,7 +329,7 @@ class Harness(cm.BaseA):
             for w_ in wells:
                 led[dst][g.real(w_)] += v
             for n in post:
-                bad = [(well_id(*c), float(x), float(post[n][c])) for c, x in led[n].items() if Fraction(float(post[n][c])) != x]
+                bad = [(well_id(*c), float(x), float(post[n][c])) for c, x in led[n].items() if fr(post[n][c]) != x]
                 if bad:
                     V.append(("C04/ledger", f"distribute {src}[{col}]->{dst} {wells} via {wl}: {n} (well, exact, reported) {bad[:4]}"))
             res["nontrivial"] = self.canon(W, config) + b"d"
